@@ -31,7 +31,7 @@ def regenerate(ctx):
 
 
 def replay(doc):
-    if doc.get("replay", {}).get("family") == "rewrite-new-domain":
+    if doc.get("replay", {}).get("family") in ("rewrite-new-domain", "rewrite-existing-value"):
         from harness import c04_rewrite
         return c04_rewrite.replay(doc)
     return K.replay(doc)
@@ -786,6 +786,16 @@ def run(ctx):
                    "nested up to 3 times): imports_ok (Graph/Wf.v) in Coq for the model and for every function, checker, signature, onnxruntime",
                    rw["fired"] >= 40 and rw["coq-evaluated"] == rw["fired"] and rw["fired-in:function-subgraph"] >= 10 and rw["fired-in:main-subgraph"] >= 5,
                    f"{dict(rw)}")
+
+    # user rules whose replacement RETURNS an existing value (Neg(Neg(x)) -> x, Identity(x) -> x, Add(x, 0) -> x) on hosts where the pattern output
+    # is a graph output / interior and x is a graph input / initializer / another graph output / interior, main graph and If branches
+    xv = c04_rewrite.run_existing_value_family(ctx, quick)
+    ctx.obligation("rewrite with user rules whose replacement returns an existing value (pattern output = graph output / interior / branch output; x = graph "
+                   "input / initializer / initializer-input / another graph output / interior; rewrite(proto), rewrite(ir), RewriteRuleSet.apply_to_model, "
+                   "RewritePass): no exception, checker (full), signature, onnxruntime = original, imports_ok / wf_graphb in Coq",
+                   xv["fired"] >= 50 and xv["forwarding-Identity-inserted"] >= 20 and xv["raised"] == 0 and xv["coq-evaluated"] >= xv["fired"]
+                   and all(xv[f"entry:{e}"] >= 10 for e in c04_rewrite.ENTRIES), f"{dict(xv)}")
+    ctx.cover(rewrite_existing_value=dict(xv))
 
     # Props/C04_refs.v: RemoveUnusedFunctions / RemoveUnusedOpsets / InlinePass models against the real passes (hand-built function hosts)
     from harness import c03_inline
